@@ -638,7 +638,9 @@ class Engine:
                 '1..5 magnitude bins, three cell orders, optional lat/lon column swap; 15% quadtree ascii files) is loaded '
                 'with the real loader and driven by a seeded history of SCALE / SCALE_TO_DATE (before, at, inside, after '
                 'the window) / READ / LOOKUP (interior, lower corner, lower edges, lower magnitude edges, open top bin) / '
-                'LOOKUP_OUTSIDE / TARGET_RATES(scale) / EVAL by 1-2 actors; after every op data == file rates x last factor '
+                'LOOKUP_OUTSIDE / TARGET_RATES(scale; also with an event the region does not contain, so that the call fails '
+                'part-way) / EVAL / RELOAD / LOAD_OTHER by 1-2 actors, with the fault "caller goes on computing in place on '
+                'arrays the forecast handed out"; after every op data == file rates x last factor '
                 '(bit-exact). distinct = digest of (layout, flags, op list with arguments); non-trivial = >= 2 ops')
 
     @staticmethod
